@@ -103,6 +103,14 @@ int main(int argc, char **argv) {
             }
             cv_free(&cv);
         }
+        /* disks that cover the whole globe (k at and beyond the graph diameter): every base cell at r=0, the pentagons and some
+           hexagons at r=1 */
+        { CellVec cv = {0}; cv_all_cells(&cv, 0);
+          for (int64_t i = 0; i < cv.n; i++) { if (quick && i % 2 && !isPentagon(cv.v[i])) continue; ev_safe("gridDisk", 0, cv.v[i], 10); ev_safe("gridDiskDistancesSafe", 2, cv.v[i], 12); ev_safe("gridDiskDistances", 1, cv.v[i], 9); }
+          cv_free(&cv);
+          H3Index p1[12]; getPentagons(1, p1);
+          for (int i = 0; i < 12; i++) { if (quick && i % 3) continue; ev_safe("gridDiskDistancesSafe", 2, p1[i], 26); ev_safe("gridDisk", 0, p1[i], 27); }
+          for (int t = 0; t < (quick ? 3 : 20); t++) ev_safe(t % 2 ? "gridDisk" : "gridDiskDistances", t % 2 ? 0 : 1, vt_random_cell(1), 25 + (int)vt_randn(4)); }
         /* large k at the coarsest resolutions: wraps more than half of the globe */
         for (int res = 0; res <= 1; res++) {
             CellVec cv = {0}; cv_all_cells(&cv, res);
